@@ -36,6 +36,10 @@ func init() {
 		zz + "PoolMode":     extPoolMode,
 		zz + "Freeze":       extFreeze,
 		zz + "Fail":         extFail,
+		zz + "HangIsViolation": func(e *Exec, _ *frame, _ token.Pos, _ *ssa.Function, _ []Value) Value {
+			e.ghost["hangviolation"] = e.ts.True
+			return nil
+		},
 		zz + "IteInt": func(e *Exec, _ *frame, _ token.Pos, _ *ssa.Function, a []Value) Value {
 			return e.ts.Ite(a[0].(*Term), a[1].(*Term), a[2].(*Term))
 		},
